@@ -314,6 +314,19 @@ def do_check(pid, tier, seed):
             if bad:
                 proof_ok = False
                 broken.append('axioms:{}'.format(','.join(bad)))
+        # thorough tier: independent re-check of the compiled theory and everything it depends on
+        coqchk_info = None
+        if proof_ok and tier == 'thorough' and os.environ.get('VERIF_NO_COQCHK') != '1':
+            rcc, outc = run(['timeout', '3000', 'coqchk', '-o', '-silent', '-Q', '.', 'BB', 'BB.Props.' + pid], cwd=COQ, timeout=3100)
+            m = re.search(r'\* Axioms:\s*(.*?)\n\s*\n', outc, re.S)
+            ax = (m.group(1).strip() if m else 'unparsed')
+            coqchk_info = {'rc': rcc, 'axioms': ax}
+            if rcc != 0:
+                proof_ok = False
+                broken.append('coqchk:{}'.format(outc[-300:].replace('\n', ' | ')))
+            elif ax != '<none>' and not set(re.findall(r'[\w.]+', ax)) <= set(getattr(mod, 'ALLOWED_AXIOMS', [])):
+                proof_ok = False
+                broken.append('coqchk-axioms:{}'.format(ax[:300]))
         # executables
         exes = getattr(mod, 'EXES', ['bbmodel', 'bbspec'])
         # build the cone of the executables (Model / Spec files) too
@@ -407,7 +420,8 @@ def do_check(pid, tier, seed):
             'theorems': theorems,
             'axioms_reported_by_Print_Assumptions': axioms,
             'closed_under_global_context': closed,
-            'checker_cmd': 'cd coq && make -j16 {}o && coqc -Q . BB {}   (Print Assumptions under every theorem)'.format(props_file, props_file),
+            'checker_cmd': 'cd coq && make -j16 {}o && coqc -Q . BB {}   (Print Assumptions under every theorem); thorough: coqchk -o -Q . BB BB.Props.{}'.format(props_file, props_file, pid),
+            'coqchk': coqchk_info,
             'trusted_base': TRUSTED_BASE + list(getattr(mod, 'TRUSTED_EXTRA', [])),
             'gen_units': {u: ('ok' if status.get(u) is None else status.get(u)) for u in mod.GEN_UNITS},
             'evaluations': ctx.evaluations,
